@@ -17,6 +17,12 @@ import RtenVerif.Model.Sampler
   logit) on the probabilities the implementation computed; the harness always answers `asm=ok`,
   so a violated assumption is reported as a disagreement, separately from property failures.
 
+* `ms … p=nan c=nan ids=<csv>` — the softmax output is NaN (all logits −∞, NaN or +∞ logit):
+  answer `id=<first id>` (`sampleNaN`).
+* `seq <step> | <step> | …` with `<step>` = `t=<num|-> p=<nums> c=<nums> ids=<csv>` — one seeded
+  sampler used for a sequence of inputs (`sampleSeq` with the draws as the RNG stream, `t=-` for
+  an empty input, which must not consume a draw).  Answer `ids=<id|panic>,…`.
+
 `<num>` is `<m>@<e>` = m·2^e (every finite f32 is of this form with e ≥ −149); all numbers
 are put on the common scale 2^-200 so the model computes with exact integers.
 -/
@@ -73,23 +79,44 @@ def parseKey (s : String) : Option (Option Int) :=
 def parseKeys (s : String) : Option (List (Option Int)) :=
   if s.isEmpty then some [] else (s.splitOn ",").mapM parseKey
 
-/-- Executable check of `SoftmaxFacts` (scale `2^200`, tolerance `2^-16`). -/
-def softmaxFacts (keys : List (Option Int)) (p : List Int) : String :=
+/-- `SoftmaxFacts` (scale `2^200`, tolerance `2^-16`) evaluated by the model's own executable
+predicate `softmaxFactsB` (sound: `softmaxFactsB_sound`); the remaining text only names the
+first violated clause. -/
+def softmaxFacts (ids : List Nat) (keys : List (Option Int)) (p : List Int) : String :=
   let one : Int := (2 : Int) ^ 200
   let tol : Int := (2 : Int) ^ 184
-  let total := p.foldl (· + ·) 0
-  let pairs := keys.zip p
-  if p.any (· < 0) then "negative"
-  else if pairs.any (fun kp => kp.1.isNone && kp.2 != 0) then "excluded-positive"
-  else if total < one - tol || one + tol < total then "sum"
+  let cs : List (Nat × Option Int × Int) := (ids.zip (keys.zip p))
+  if softmaxFactsB cs one tol then "ok"
+  else if p.any (· < 0) then "negative"
+  else if (keys.zip p).any (fun kp => kp.1.isNone && kp.2 != 0) then "excluded-positive"
   else
-    -- monotone ⇔ sorted by (logit, prob), the probabilities are non-decreasing
-    let fin := pairs.filterMap (fun kp => kp.1.map (fun k => (k, kp.2)))
-    let srt := fin.mergeSort (fun a b => a.1 < b.1 || (a.1 == b.1 && a.2 ≤ b.2))
-    let rec go : List (Int × Int) → Bool
-      | a :: b :: rest => if a.2 ≤ b.2 then go (b :: rest) else false
-      | _ => true
-    if go srt then "ok" else "not-monotone"
+    let total := sumProbs (cs.map (fun c => (c.1, c.2.2)))
+    if total < one - tol || one + tol < total then "sum" else "not-monotone"
+
+structure SeqStep where
+  t : Option Int
+  p : List Int
+  c : List Int
+  ids : List Nat
+
+def parseStep (ws : List String) : Option SeqStep := do
+  let tw ← field "t" ws
+  let t ← if tw == "-" then some none else (parseNum tw).map some
+  let p ← (field "p" ws).bind parseNums
+  let c ← (field "c" ws).bind parseNums
+  let ids ← (field "ids" ws).bind (parseNatList ",")
+  if p.length != c.length || p.length != ids.length then none else
+  pure { t := t, p := p, c := c, ids := ids }
+
+def seqAnswer (steps : List SeqStep) : String :=
+  let table := steps.flatMap (fun st => mkTable 0 st.p st.c)
+  let draws := steps.filterMap (·.t)
+  let next : List Int → Int × List Int := fun σ => (σ.headD 0, σ.tail)
+  let outs := sampleSeq currentRule (addOf table) next
+    (fun (_ : List Int) (st : SeqStep) => zipIds st.ids st.p) ⟨draws, []⟩ steps
+  "ids=" ++ joinWith "," (outs.map (fun o => match o with
+    | some r => toString r.1
+    | none => "panic"))
 
 def handle (line : String) : String :=
   match words line with
@@ -107,7 +134,19 @@ def handle (line : String) : String :=
       | some r => s!"some {r.1}"
       | none => "none"
     | _, _, _ => "bad-request"
+  | "seq" :: ws =>
+    let groups := (joinWith " " ws).splitOn " | "
+    match groups.mapM (fun g => parseStep (words g)) with
+    | some steps => seqAnswer steps
+    | none => "bad-request"
   | "ms" :: ws =>
+    if field "p" ws == some "nan" then
+      match (field "ids" ws).bind (parseNatList ",") with
+      | some ids => match sampleNaN ids with
+        | some i => s!"id={i}"
+        | none => "panic"
+      | none => "bad-request"
+    else
     match (field "t" ws).bind parseNum, (field "p" ws).bind parseNums, (field "c" ws).bind parseNums,
           (field "ids" ws).bind (parseNatList ",") with
     | some t, some p, some c, some ids =>
@@ -119,7 +158,7 @@ def handle (line : String) : String :=
         | some keys =>
           if keys.length != p.length then "bad-request" else
           let walk := if (firstExceed add t 0 (zipIds ids p)).isSome then "hit" else "end"
-          s!"id={r.1} walk={walk} asm={softmaxFacts keys p}"
+          s!"id={r.1} walk={walk} asm={softmaxFacts ids keys p}"
         | none => s!"id={r.1}"
       | none => "panic"
     | _, _, _, _ => "bad-request"
